@@ -67,7 +67,8 @@ func TestVerifC18(t *testing.T) {
 	var srch zoekt.Streamer
 	dir, searcherKind := "", ""
 	nw := 0
-	branchNames := []string{"HEAD", "HEAD", "main", "dev", ""}
+	// branch names asked for: incl. names that contain one another (main / main-old / ma) and the empty name
+	branchNames := []string{"HEAD", "HEAD", "main", "main", "dev", "", "main-old", "ma"}
 	for i := 0; i < n; i++ {
 		if i%perWorld == 0 {
 			nw++
@@ -189,10 +190,20 @@ func TestVerifC18(t *testing.T) {
 		}
 		got := map[uint64]bool{}
 		gotBr := map[uint64]string{}
+		gotBrIDs := map[uint64][]uint64{}
 		dup := false
 		for _, f := range res.Files {
 			id := w.id(f.FileName)
 			gotBr[id] = fmt.Sprint(f.Branches)
+			var bl []uint64
+			for _, b := range f.Branches {
+				bid, ok := vfsBranchID[b]
+				if !ok {
+					bid = 999
+				}
+				bl = append(bl, bid)
+			}
+			gotBrIDs[id] = bl
 			if got[id] {
 				dup = true
 			}
@@ -336,7 +347,15 @@ func TestVerifC18(t *testing.T) {
 		if len(lr) > 0 {
 			olist = cList(lr)
 		}
-		coq := cTuple(cList(shs), cList(terms), cNList(gotL), olist)
+		obr := "[]"
+		if len(gotL) > 0 {
+			var xs []string
+			for _, id := range gotL {
+				xs = append(xs, cTuple(cN(id), cNList(gotBrIDs[id])))
+			}
+			obr = cList(xs)
+		}
+		coq := cTuple(cList(shs), cList(terms), cNList(gotL), olist, obr)
 		class := []string{"searcher=" + searcherKind, fmt.Sprint("shards=", len(w.shards)), fmt.Sprint("children=", len(children)), fmt.Sprint("files>0=", len(gotL) > 0)}
 		for _, k := range kinds {
 			class = append(class, "kind="+k)
